@@ -7,6 +7,7 @@ import SifVerif.Model.Image
 import SifVerif.Model.Extra
 import SifVerif.Model.Check
 import SifVerif.Model.Integrity
+import SifVerif.Model.Siftool
 import Driver.SHA2
 open Sif
 
@@ -403,6 +404,43 @@ partial def loop (inp : IO.FS.Stream) (out : IO.FS.Stream) (st : DState) : IO Un
           if kv.get "io" == "1" then
             for l in ios do out.putStrLn l
           loop inp out { st with img := some cur }
+    | "cli" =>
+      -- one siftool invocation on the current file (see Model/Siftool.lean)
+      let optNat (k : String) : Option Nat := if kv.get k == "-" || !kv.has k then none else some (kv.nat k)
+      let optInt (k : String) : Option Int := if kv.get k == "-" || !kv.has k then none else some (kv.int k)
+      let optBytes (k : String) : Option Bytes :=
+        if kv.get k == "-" || !kv.has k then none else some ((unhex ((kv.get k).drop 2).toString).getD [])
+      let text (k : String) : Bytes := (unhex (kv.get k)).getD []
+      let cmd : Cli.Cmd :=
+        match kv.get "cmd" with
+        | "new" => .new
+        | "add" =>
+          .add { datatype := kv.int "datatype", parttype := kv.int "parttype", partfs := kv.int "partfs",
+                 partarch := kv.int "partarch", signhash := kv.int "signhash", signentity := text "signentity",
+                 sbomformat := text "sbomformat", groupid := kv.nat "groupid", link := optNat "link",
+                 alignment := optInt "alignment", filename := optBytes "filename" }
+            (if kv.get "data" == "none" then none else some (parseData (kv.get "data")))
+        | "del" => .del (text "arg")
+        | "setprim" => .setprim (text "arg")
+        | "dump" => .dump (text "arg")
+        | "info" => .info (text "arg")
+        | "header" => .header
+        | _ => .list
+      let file : Option Store := if kv.get "exists" == "0" then none else st.img.map (·.st)
+      -- a flag value pflag itself refuses is not modelled: the command fails before anything runs
+      let r : Cli.Outcome := if kv.get "badflag" == "1" then { file := file, ok := false }
+        else Cli.run sha ph file cmd (kv.int "now") (kv.bytes "rnd")
+      match cmd with
+      | .dump _ => out.putStrLn s!"cli {if r.ok then "ok" else "err"} dump={r.out.length}:{fnvHex r.out}"
+      | _ => out.putStrLn s!"cli {if r.ok then "ok" else "err"}"
+      -- the handle the next observation sees is a fresh load of whatever the command left
+      let img' : Option Img :=
+        match r.file with
+        | none => none
+        | some f => match loadContainer f with
+          | .ok s => some s
+          | .error _ => none
+      loop inp out { st with img := img' }
     | "mkimg" =>
       -- the independent encoder: build an image from an explicit description and write it out
       let n := kv.nat "n"
